@@ -25,6 +25,7 @@ LEVEL_TEXT = (
     "block as `a[-k:]` with k possibly 0, and session start/end of a scheduler writes session-scoped attributes only; "
     "(R3) the object dumped to the scheduler file is the calibrator's scheduler itself and every checkpoint file is "
     "rewritten on every path through save. Batch-for-batch equality of two runs is a runtime clause and is not decided."
+    ' (R2f) no identity / == / membership comparison of stored repository objects whose class defines no __eq__ in classes reachable from the pickled scheduler (a restored copy is never `is` the original).'
 )
 TECHNIQUE = "effect analysis (module/class/attribute writes), loop-carried-local detection on the CFG, view-aliasing of attributes, plumbing composition"
 
